@@ -10,7 +10,7 @@ Line protocol for C12 (parsing / printing only; every answer is computed by the 
   src   <nwindow> <ns>                         → ok n=<rows> src=<AP index of every LF sample>  | err …
   sync  <nwindow> <ns> <w0,w1,…>               → ok <sync column of the LF file>                | err …
   files <np21|np24> <nwindow> <ns> <acq> <sns> <nSavedChans> <shank map>
-        → ok then per file `sh=… rows=… nbytes=… chns=… acq=… sns=… nsaved=… size=… rate=… subset=… shank=… orig=… type=… shape=…`
+        → ok then per file `sh=… rows=… nbytes=… chns=… acq=… sns=… nsaved=… size=… rate=… subset=… suborig=… shank=… orig=… type=… shape=…`
 -/
 
 def withParams (w : String) (k : Params → String) : String :=
@@ -32,9 +32,10 @@ def showFile (f : LfFile) : String :=
   let m := f.md
   let shape := openShape m f.nbytes
   let subset := match m.subset with | some (a, b) => s!"{a}:{b}" | none => "kept"
+  let suborig := match m.subsetOrig with | some l => showList l | none => "none"
   let shank := match m.shank with | some s => toString s | none => "none"
   s!"sh={f.sh} rows={f.rows} nbytes={f.nbytes} chns={showList f.chns} acq={showTrip m.acq} sns={showTrip m.sns} " ++
-  s!"nsaved={m.nSavedChans} size={m.fileSizeBytes} rate={m.sampRate.1}/{m.sampRate.2} subset={subset} shank={shank} " ++
+  s!"nsaved={m.nSavedChans} size={m.fileSizeBytes} rate={m.sampRate.1}/{m.sampRate.2} subset={subset} suborig={suborig} shank={shank} " ++
   s!"orig={m.originalMeta} type={metaType m} shape={shape.1}x{shape.2}"
 
 def step (t : List String) : String :=
@@ -62,7 +63,7 @@ def step (t : List String) : String :=
     match v?, nat? ns, trip? acq, trip? sns, nat? nsaved, natList? shankMap with
     | some v, some ns, some acq, some sns, some nsaved, some sm => withParams w fun p =>
       let m : Meta := { acq := acq, sns := sns, nSavedChans := nsaved, fileSizeBytes := 0,
-                        sampRate := (Generated.CONV_FS_AP, 1), subset := none, shank := none,
+                        sampRate := (Generated.CONV_FS_AP, 1), subset := none, subsetOrig := none, shank := none,
                         originalMeta := true }
       match lfFiles v p ns m sm with
       | .error e => e.show
